@@ -12,6 +12,9 @@ POOLS = (
     ('iteration', 'iteration_error', 'iteration_abs_change', 'k', '_z', 'a'),
     ('t', 'iteration_error', 'x', 'X', 'k1', 'k'),
     ('iteration_abs_change', 'iteration', 'T', 'K', 'b', 'a'),
+    # qualified names (SECTOR__NAME) whose sector codes are prefixes of one another: plain string order, '_' sorts after digits and capitals
+    ('HH__F', 'HH2__F', 'HH_X__F', 'HHa__F', 'k', 'GOVX'),
+    ('GOV__T', 'GOV_DEP__r', 'GOVX', 'GOV__T2', 't', 'GOV2__T'),
 )
 
 
@@ -49,6 +52,16 @@ def check_header_pool2(b0: bool, b1: bool, b2: bool, b3: bool, b4: bool, b5: boo
 def check_header_pool3(b0: bool, b1: bool, b2: bool, b3: bool, b4: bool, b5: bool) -> bool:
     """ post: _ """
     return _header_ok(POOLS[3], (b0, b1, b2, b3, b4, b5))
+
+
+def check_header_pool4(b0: bool, b1: bool, b2: bool, b3: bool, b4: bool, b5: bool) -> bool:
+    """ post: _ """
+    return _header_ok(POOLS[4], (b0, b1, b2, b3, b4, b5))
+
+
+def check_header_pool5(b0: bool, b1: bool, b2: bool, b3: bool, b4: bool, b5: bool) -> bool:
+    """ post: _ """
+    return _header_ok(POOLS[5], (b0, b1, b2, b3, b4, b5))
 
 
 def reach_header(b0: bool, b1: bool, b2: bool) -> bool:
